@@ -3,7 +3,7 @@ and calls inside one interpreter state; afterwards the caller-visible state is c
 was (provider mappings, annotation attributes).
 
  A|alias|cls,opt,shape            one shared annotation object (opt = its constructor flag, normally 0)
- V|pid|fresh/long/inst/bad/badfalsy/badstr/falsy|scope   a provider object (fresh dict per call / one long-lived dict / `inst`: the method is an attribute of the
+ V|pid|fresh/long/inst/unhash/bad/badfalsy/badstr/baddict/falsy|scope   a provider object (fresh dict per call / one long-lived dict / `inst`: the method is an attribute of the
                                   instance, not of its class — a namespace, a module, a mock / not a provider: an object, a falsy object, a string other than "self" / a falsy provider)
  S|pid|scope                      change what the provider returns
  D|fid|pid,-,self:pid,selfraw|name=alias:opt;name=(alias:opt+alias:opt)|ret|nested   (nested: fid | - | set:pid=k:3,n:4 = the body updates provider pid)
@@ -57,6 +57,17 @@ class InstProv:
 
 class NotProv:
     def __init__(self, d):
+        self.d = dict(d)
+
+    def set(self, d):
+        self.d = dict(d)
+
+
+class DictNotProv(dict):
+    """a mapping handed over where a provider is expected (`dltyped(config)` instead of `dltyped(ConfigProvider(config))`): not a provider, and unhashable"""
+
+    def __init__(self, d):
+        super().__init__(d)
         self.d = dict(d)
 
     def set(self, d):
@@ -137,6 +148,11 @@ def op_hist(*steps: str) -> str:
                     provs[f[1]] = FalsyProv("fresh", d)
                 elif f[2] == "inst":
                     provs[f[1]] = InstProv(d)
+                elif f[2] == "unhash":
+                    # a provider that cannot be hashed (an ordinary non-frozen dataclass config, any class with __eq__ and no __hash__)
+                    provs[f[1]] = type("UnhashableProv", (Prov,), {"__eq__": lambda self, o: self is o, "__hash__": None})("fresh", d)
+                elif f[2] == "baddict":
+                    provs[f[1]] = DictNotProv(d)   # a plain mapping handed over instead of a provider: unhashable, not a provider
                 else:
                     provs[f[1]] = Prov(f[2], d)
                 prov_expected[f[1]] = dict(d)
@@ -166,7 +182,7 @@ def op_hist(*steps: str) -> str:
                     if isinstance(provs.get(pid[5:]), InstProv):
                         # the method is assigned in __init__: an attribute of the instance, absent from the class
                         src += "        self.get_dltype_scope = lambda: self.prov.get_dltype_scope()\n"
-                    elif not isinstance(provs.get(pid[5:]), (NotProv, StrProv)):
+                    elif not (isinstance(provs.get(pid[5:]), (NotProv, StrProv)) or isinstance(provs.get(pid[5:]), DictNotProv)):
                         src += "    def get_dltype_scope(self):\n        return self.prov.get_dltype_scope()\n"
                     # ("self" built at run time: equal to the literal, not the interned object)
                     src += f"    @dltype.dltyped(''.join(('se', 'lf')))\n    def f(self{', ' if sig else ''}{sig}){rets}:\n"
